@@ -244,9 +244,11 @@ class Round(Op):
         # printed must not depend on the size of the number it is attached to)
         for unit, top in (("s", 60), ("m", 60), ("h", 24)):
             for v in gens.shard_filter(list(range(top)), self.shard):
-                for digits in ("000001", "999999", "000010", "5", "1"):
-                    if tier == "quick" and digits in ("000010", "5") and v % 4:
-                        continue
+                band = ["00000%d" % k for k in range(1, 10)] + ["99999%d" % k for k in range(10)] + \
+                    ["499999", "500000", "500001", "000010", "5", "1", "99999", "9999", "000099"]
+                # (the whole band next to 0 and next to 1: where "would round up to the next unit" guards sit)
+                picks = band if tier != "quick" else ["000001", "999999", "1"] + rng.sample(band, 5)
+                for digits in picks:
                     hh, mi, ss = (rng.randint(0, 23), rng.randint(0, 59), v) if unit == "s" else \
                         ((rng.randint(0, 23), v, None) if unit == "m" else (v, None, None))
                     pt = (0, "c", 2021, 3, 9, hh, mi, ss, unit, digits, *rng.choice([(0, 0), (5, 30), (-3, -30)]))
